@@ -20,6 +20,8 @@ type Fault struct {
 	Arg  int    `json:"arg,omitempty"`  // short write: bytes really written; status for resp replace
 	Op   string `json:"op,omitempty"`   // disk: only when the call's op matches (informational after execution)
 	Note string `json:"note,omitempty"` // filled in by the executor: what the fault hit
+	Trip int    `json:"trip,omitempty"` // resp/transport: which round trip of the call (0 = first)
+	Sel  int    `json:"sel,omitempty"`  // multi-status rewriting: which property
 }
 
 // APICall is one call of the public webdav.Client API.
@@ -49,10 +51,10 @@ type Step struct {
 	Probe   bool        `json:"probe,omitempty"` // harness-initiated observation, not part of the workload
 
 	// CalDAV/CardDAV/robustness workloads
-	Kind      string `json:"kind,omitempty"`      // request template
-	DocEnd    int    `json:"doc_end,omitempty"`   // offset at which the body's document is complete
-	Malformed string `json:"malformed,omitempty"` // non-empty: malformed on purpose (what), must be answered 4xx
-	Call      *DavCall `json:"call,omitempty"`    // C14: one client call
+	Kind      string   `json:"kind,omitempty"`      // request template
+	DocEnd    int      `json:"doc_end,omitempty"`   // offset at which the body's document is complete
+	Malformed string   `json:"malformed,omitempty"` // non-empty: malformed on purpose (what), must be answered 4xx
+	Call      *DavCall `json:"call,omitempty"`      // C14: one client call
 }
 
 func (s *Step) Header(name string) (string, bool) {
